@@ -106,7 +106,10 @@ def build_gen_vh(ctx, vh, vecs, name="vhgen"):
     return ctx.build_vh(gen_files={"cmd/vh/walker_gen.go": code}, name=name), ntypes
 
 
-def replay(ctx, vh, vecs, mfile, gen=False, carriers=None, shards=4):
+ALT_SEP = " ## "      # every second shard runs with valid.ErrEndFlag set to this text (the separator is a variable of the library)
+
+
+def replay(ctx, vh, vecs, mfile, gen=False, carriers=None, shards=4, sep=None):
     """Runs the real walkers on every vector; returns the list of result records."""
     def one(k):
         part = vecs[k::shards]
@@ -119,7 +122,8 @@ def replay(ctx, vh, vecs, mfile, gen=False, carriers=None, shards=4):
             args.append("-gen")
         if carriers:
             args += ["-carriers", ",".join(carriers)]
-        ctx.run_vh(vh, args, stdin_path=ip, stdout_path=op)
+        use = sep if sep is not None else (ALT_SEP if k % 2 == 1 else "")
+        ctx.run_vh(vh, args, stdin_path=ip, stdout_path=op, extra_env={"VERIF_ENDFLAG": use})
         return common.read_ndjson(op)
     with ThreadPoolExecutor(max_workers=shards) as ex:
         outs = list(ex.map(one, range(shards)))
@@ -259,7 +263,8 @@ def compare(ctx, vecs, results, src, markers=None):
             r["style"], r["carrier"], why, brief(v["scn"]),
             "any result" if exp["any"] else json.dumps(exp["seqs"][0], ensure_ascii=False) + (" (+%d orders)" % (len(exp["seqs"]) - 1) if len(exp["seqs"]) > 1 else ""),
             r["kind"], r.get("panic") or r.get("raw", ""))
-        ctx.candidate(sig, desc, dict(kind="vector", scn=v["scn"], exp=v["exp"], style=r["style"], carrier=r["carrier"], markers=markers))
+        ctx.candidate(sig, desc, dict(kind="vector", scn=v["scn"], exp=v["exp"], style=r["style"], carrier=r["carrier"], markers=markers,
+                                               sep="" if r.get("sep", "; ") == "; " else r["sep"]))
     return n, nontriv, reasons
 
 
@@ -374,7 +379,7 @@ def replay_saved(ctx, vh):
         use = vh
         if r["carrier"] == "gen":
             use, _ = build_gen_vh(ctx, vh, [vec], name="vhgen-replay")
-        res = replay(ctx, use, [vec], mfile, gen=r["carrier"] == "gen", carriers=[r["carrier"]], shards=1)
+        res = replay(ctx, use, [vec], mfile, gen=r["carrier"] == "gen", carriers=[r["carrier"]], shards=1, sep=r.get("sep", ""))
         res = [x for x in res if x["style"] == r["style"]]
         if not res:
             raise MachineryError("replay produced no result")
